@@ -1,20 +1,20 @@
 #!/bin/bash
-# usage: eval_seed.sh <seed-name> <property-id> [tier]
+# usage: eval_seed.sh <seed-name> <property-id> [tier] [only-harness-substring]
 # Applies /verif/seeded/<seed-name>/patch.diff to a fresh scratch worktree of /repo, runs the property's
 # check against it (VERIF_REPO), records the outcome in meta.json, removes the worktree.
-name=$1; id=$2; tier=${3:-quick}
+name=$1; id=$2; tier=${3:-quick}; only=${4:-}
 wt=/tmp/evalseed-$name-$$
 git -C /repo worktree add --detach $wt HEAD >/dev/null 2>&1 || exit 2
 git -C $wt apply /verif/seeded/$name/patch.diff || { echo "patch does not apply"; git -C /repo worktree remove --force $wt; exit 2; }
 ev=/var/tmp/seed-evidence/$name; mkdir -p $ev
 log=/verif/seeded/$name/check_$tier.log
-VERIF_REPO=$wt VERIF_EVIDENCE_DIR=$ev /verif/bin/vcheck $id --tier $tier > $log.full 2>&1; code=$?
+VERIF_REPO=$wt VERIF_EVIDENCE_DIR=$ev /verif/bin/vcheck $id --tier $tier ${only:+--only $only} > $log.full 2>&1; code=$?
 grep -E "^VIOLATION|^  harness=|^property|^KNOWN|^ENGINE-ERROR" $log.full | cut -c1-400 | head -40 > $log; rm -f $log.full
 git -C /repo worktree remove --force $wt
 python3 - <<PY
 import json
 p="/verif/seeded/$name/meta.json"; m=json.load(open(p))
-m.setdefault("checks",{})["$id/$tier"]={"cmd":"VERIF_REPO=<worktree with patch> /verif/bin/vcheck $id --tier $tier","exit":$code,"detected":$code==1,
+m.setdefault("checks",{})["$id/$tier"]={"cmd":"VERIF_REPO=<worktree with patch> /verif/bin/vcheck $id --tier $tier ${only:+--only $only}","exit":$code,"detected":$code==1,
   "violations":[l.strip() for l in open("$log") if l.startswith("  harness=")][:6]}
 json.dump(m,open(p,"w"),indent=1)
 PY
